@@ -200,6 +200,11 @@ class MG:
                 self.tags.add("nested-" + ("same" if sub_kind == kind else "other"))
             else:
                 body.append(self.call(in_auto=(kind == "auto")))
+        calls = [b for b in body if b[0] == "call"]
+        if calls and rng.random() < 0.25:
+            # the same call written twice in one block (same callee, same arguments): still two members
+            body.insert(rng.randint(0, len(body)), rng.choice(calls))
+            self.tags.add("duplicate-call-in-block")
         self.tags.add(kind)
         return ("block", kind, body)
 
@@ -275,7 +280,12 @@ def gen_sub(g, name, rng, early_return):
     saved = g.o["subs"]
     g.o["subs"] = False
     body = g.stmts(rng.randint(1, 2), 1, params)
-    if early_return:
+    if early_return and rng.random() < 0.35:
+        # an unconditional return written directly in a loop body (taken in the first iteration, if there is one)
+        v = f"j{rng.randint(0, 99)}"
+        body.append(("for", v, rng.choice(["sn", "sn", "2"]), [rng.choice([g.other(), g.call()]), ("ret",)]))
+        g.tags.add("return-in-loop")
+    elif early_return:
         body.append(("if", rng.choice(["sc", "sn > 1", "sn == 0"]), [rng.choice([g.other(), g.call()]), ("ret",)], []))
         g.tags.add("early-return")
     body += g.stmts(rng.randint(1, 2), 1, params)
